@@ -491,8 +491,8 @@ theorem populate_direct_accepts_iff (c : EchoLoad.Case) :
 
 /-! non-vacuity: a loadable pair of suites; single departures from it that are rejected -/
 private def lcase : EchoLoad.Case := ⟨"a", 1, false, false, [.unary], false, false, false, []⟩
-private def lsuite : EchoLoad.Suite := ⟨"S", 0, false, [], false, false, false, 0, [lcase, { lcase with name := "b", st := 5, msgs := [.bidi, .bidi] }]⟩
-private def lget : EchoLoad.Suite := ⟨"G", 1, true, [1], false, false, true, 0, [{ lcase with msgs := [.idempotent], expand := [.fits] }]⟩
+private def lsuite : EchoLoad.Suite := ⟨"S", 0, [], [], false, false, false, 0, [lcase, { lcase with name := "b", st := 5, msgs := [.bidi, .bidi] }]⟩
+private def lget : EchoLoad.Suite := ⟨"G", 1, [1], [1], false, false, true, 0, [{ lcase with msgs := [.idempotent], expand := [.fits] }]⟩
 example : loadErr cfgApplies 1 [lsuite, lget] = none := by decide
 example : Loadable cfgApplies 1 [lsuite, lget] := (load_accepts_iff _ _ _).1 (by
   have : loadErr cfgApplies 1 [lsuite, lget] = none := by decide
@@ -504,7 +504,7 @@ example : loadErr cfgApplies 1 [lsuite, { lget with name := "S" }] = some .suite
 example : loadErr cfgApplies 2 [{ lsuite with mode := 1 }, lget] = some .noCases := by decide
 example : loadErr cfgApplies 1 [{ lsuite with cases := [{ lcase with msgs := [.bidi] }] }] = some .populateNotUnary := by decide
 example : loadErr cfgApplies 1 [{ lsuite with cases := [{ lcase with msgs := [.clientStream, .other] }] }] = none := by decide
-example : loadErr cfgApplies 1 [{ lget with onlyConnect := false }] = some .misconfigured := by decide
+example : loadErr cfgApplies 1 [{ lget with protos := [1, 2] }] = some .misconfigured := by decide
 example : loadErr cfgApplies 1 [{ lget with codecs := [1, 2] }] = some .expandCodecs := by decide
 example : loadErr cfgApplies 1 [{ lsuite with tls := true, cases := [{ lcase with name := "" }] }, lget] = none := by decide
 example : populateDirect { lcase with st := 0 } = some .streamTypeRequired ∧ populateDirect { lcase with st := 9 } = some .streamTypeUnsupported ∧
